@@ -321,6 +321,7 @@ func report(prop string, runs []*run, known []knownEntry, tier string, seed int,
 		for _, w := range f.Witness {
 			fmt.Printf("      witness: %s\n", w)
 		}
+		fmt.Printf("      key: %s\n", f.Key)
 		name := unsafeName.ReplaceAllString(prop+"-"+f.Key, "_")
 		if len(name) > 150 {
 			name = name[:150]
